@@ -776,3 +776,24 @@ impl IdProvider for KanidmProvider {
         }
     }
 }
+
+#[cfg(feature = "verif-hooks")]
+pub mod verif {
+    //! Verification harness hooks (add-only, off by default).
+    use super::*;
+
+    impl KanidmProvider {
+        /// Replace the allowed-login list of a live provider. Building a provider per generated
+        /// configuration is too slow for a search (`CryptoPolicy::time_target` benchmarks the KDF).
+        pub async fn verif_set_pam_allow_groups(&self, groups: &[String]) {
+            let mut inner = self.inner.lock().await;
+            inner.pam_allow_groups = groups.iter().cloned().collect();
+        }
+
+        /// Replace the KDF cost policy used for cached (offline) credentials.
+        pub async fn verif_set_crypto_policy(&self, policy: CryptoPolicy) {
+            let mut inner = self.inner.lock().await;
+            inner.crypto_policy = policy;
+        }
+    }
+}
